@@ -316,4 +316,101 @@ theorem children_in_range {ax ax' : List Axis} {idx ch : List Nat} (hr : List.Fo
 
 
 
+
+theorem list_prod_pos {l : List Nat} (h : ∀ x ∈ l, 0 < x) : 0 < l.prod := by
+  induction l with
+  | nil => simp
+  | cons a rest ih =>
+    rw [List.prod_cons]
+    exact Nat.mul_pos (h a List.mem_cons_self) (ih fun x hx => h x (List.mem_cons_of_mem _ hx))
+
+theorem refines_total (a a' : Axis) (h : Refines a a') (hp : 2 * a.pad ≤ a.n) :
+    a'.n + 2 * a'.sh = a.s * (a.n + 2 * a.sh) := by
+  rw [h.n, h.sh]
+  have : a.n = (a.n - 2 * a.pad) + 2 * a.pad := by omega
+  generalize a.n - 2 * a.pad = m at this
+  rw [this]; ring
+
+theorem total_prod {ax ax' : List Axis} (hr : List.Forall₂ Refines ax ax')
+    (hp : ∀ a ∈ ax, 2 * a.pad ≤ a.n) :
+    (ax'.map fun a => a.n + 2 * a.sh).prod = (ax.map (·.s)).prod * (ax.map fun a => a.n + 2 * a.sh).prod := by
+  induction hr with
+  | nil => simp
+  | @cons a a' rest rest' h _ ih =>
+    simp only [List.map_cons, List.prod_cons]
+    rw [ih (fun b hb => hp b (List.mem_cons_of_mem _ hb)), refines_total a a' h (hp a List.mem_cons_self)]
+    ring
+
+/-- **volume_conserved**: the `prod(splits)` children of a refined pixel together have exactly the pixel's volume -/
+theorem volume_conserved {K : Type} [Field K] [CharZero K] {ax ax' : List Axis} (hr : List.Forall₂ Refines ax ax')
+    (hp : ∀ a ∈ ax, 2 * a.pad ≤ a.n) (hs : ∀ a ∈ ax, 0 < a.s) :
+    (((ax.map (·.s)).prod : Nat) : K) * volume (K := K) ax' = volume (K := K) ax := by
+  unfold volume
+  rw [total_prod hr hp]
+  have hS : (((ax.map (·.s)).prod : Nat) : K) ≠ 0 := by
+    have : 0 < (ax.map (·.s)).prod := by
+      apply list_prod_pos
+      intro x hx
+      rw [List.mem_map] at hx
+      obtain ⟨a, ha, rfl⟩ := hx
+      exact hs a ha
+    exact_mod_cast (by omega : (ax.map (·.s)).prod ≠ 0)
+  push_cast
+  by_cases hP : (((ax.map fun a => a.n + 2 * a.sh).prod : Nat) : K) = 0
+  · push_cast at hP
+    simp [hP]
+  · push_cast at hP
+    field_simp
+
+theorem open_shape_shift_step (n sh : Nat) (l : List (Nat × Nat)) (s pd : Nat) :
+    openShapeShift n sh (l ++ [(s, pd)]) =
+      (s * ((openShapeShift n sh l).1 - 2 * pd), s * ((openShapeShift n sh l).2 + pd)) := by
+  induction l generalizing n sh with
+  | nil => simp [openShapeShift]
+  | cons p rest ih =>
+    obtain ⟨s', pd'⟩ := p
+    simp only [List.cons_append, openShapeShift]
+    exact ih _ _
+
+/-- the axis record of level `l+1` computed by `OpenGrid.at` refines the one of level `l` -/
+theorem open_at_refines (n0 : Nat) (l : List (Nat × Nat)) (s pd : Nat) (a a' : Axis)
+    (ha : a.n = (openShapeShift n0 0 l).1 ∧ a.sh = (openShapeShift n0 0 l).2 ∧ a.s = s ∧ a.pad = pd)
+    (ha' : a'.n = (openShapeShift n0 0 (l ++ [(s, pd)])).1 ∧ a'.sh = (openShapeShift n0 0 (l ++ [(s, pd)])).2 ∧
+           a'.ps = s ∧ a'.ppad = pd) : Refines a a' := by
+  rw [open_shape_shift_step] at ha'
+  obtain ⟨h1, h2, h3, h4⟩ := ha
+  obtain ⟨g1, g2, g3, g4⟩ := ha'
+  exact ⟨by rw [g1, h1, h3, h4], by rw [g3, h3], by rw [g4, h4], by rw [g2, h2, h3, h4]⟩
+
+theorem children_append (ax1 ax2 : List Axis) (i1 i2 : List Nat) (h : ax1.length = i1.length) :
+    children (ax1 ++ ax2) (i1 ++ i2) =
+      (children ax1 i1).flatMap fun c1 => (children ax2 i2).map (c1 ++ ·) := by
+  unfold children
+  rw [List.zipWith_append h, cart_append]
+
+theorem parentVec_append (ax1 ax2 : List Axis) (j1 j2 : List Nat) (h : ax1.length = j1.length) :
+    parentVec (ax1 ++ ax2) (j1 ++ j2) = parentVec ax1 j1 ++ parentVec ax2 j2 := by
+  unfold parentVec
+  rw [List.zipWith_append h]
+
+theorem neighborhood_append (ax1 ax2 : List Axis) (w1 w2 : List Nat) (i1 i2 : List Nat)
+    (h : ax1.length = i1.length) (hw : ax1.length = w1.length) :
+    neighborhood (ax1 ++ ax2) (w1 ++ w2) (i1 ++ i2) =
+      (neighborhood ax1 w1 i1).flatMap fun c1 => (neighborhood ax2 w2 i2).map (c1 ++ ·) := by
+  unfold neighborhood
+  rw [List.zip_append hw, List.zipWith_append (by simpa [List.length_zip, ← hw] using h), cart_append]
+
+
+
+theorem cover_hyp {ax ax' : List Axis} {j : List Nat} (hr : List.Forall₂ Refines ax ax')
+    (hs : ∀ a ∈ ax, 0 < a.s) (hj : List.Forall₂ (fun j (a' : Axis) => j < a'.n) j ax') :
+    List.Forall₂ (fun (a : Axis) j => 0 < a.s ∧ j < a.s * (a.n - 2 * a.pad)) ax j := by
+  induction hr generalizing j with
+  | nil => cases hj; exact List.Forall₂.nil
+  | @cons a a' rest rest' h _ ih =>
+    cases hj with
+    | @cons jk _ js _ h1 h2 =>
+      refine List.Forall₂.cons ⟨hs a List.mem_cons_self, ?_⟩ (ih (fun b hb => hs b (List.mem_cons_of_mem _ hb)) h2)
+      rw [← h.n]; exact h1
+
 end NiftyVerif.Grid
